@@ -181,6 +181,24 @@ def selection_option(rep, an, default, entry):
     if not n:
         rep.undecided("R-FLOW", "option (values, sources): the selection keeps the caller's order", where=res.fn.loc(),
                       construct="x_[idcs] in the secondary objective", entry=entry, config=res.config)
+    # the selection may be a boolean mask over the sources: it indexes the variable AS a mask
+    mask = arr("idcs", S("SRC"), ONE)
+    mask.tags["boolarr"] = True
+    opt = _Val(items=[strv("underdetermined_opt", "min"), mask], tags={"kind": "tuple", "notnone": True, "notstr": True},
+               data=frozenset({"underdetermined_opt", "idcs"}))
+    res = run(an, opt, default)
+    res.config = "opt=('min', boolean mask)"
+    for po, obj, cons in F.final_problems(res):
+        for at, v, ops in R.walk_atoms(obj):
+            if at != "index":
+                continue
+            iv = v.tag("index_val")
+            if iv is None or "idcs" not in {o.split("|")[0] for o in iv.flat().data}:
+                continue
+            rep.check("R-FLOW", "option (objective, mask): a boolean selection indexes the variable as a mask", not iv.flat().tag("mask_as_numbers"),
+                      where=F.where_po(po), construct="x_[idcs] in the secondary objective", entry=entry, config=res.config,
+                      msg="the selection is cast to numbers before it indexes the variable: a boolean mask becomes the positions 0 / 1, so the "
+                          "secondary objective runs over the first two sources instead of the masked ones")
 
 
 def var_structure(rep, res, expr, where, text, entry):
